@@ -112,6 +112,20 @@ def check(ck):
                "raised by a method): it propagates out of the request handler, the failing request gets no reply and a plain server's "
                "serve_forever loop ends", q.loc(fpo, fpo.node))
 
+    # the stdlib handler looks at what send_header() is given: `Connection: keep-alive` clears close_connection and the handler
+    # thread then waits for a further request on that socket - with an idle client it never returns (a plain server serves nobody
+    # else, a pool worker is pinned, server_close() waits for it)
+    gpo_ = cfg_of(fpo)
+    for n_ in gpo_.live_nodes():
+        for c_ in node_calls(n_):
+            if call_name(c_) == "send_header" and c_.args and isinstance(c_.args[0], ast.Constant) and str(c_.args[0].value).lower() == "connection":
+                v_ = c_.args[1] if len(c_.args) > 1 else None
+                ck.require(isinstance(v_, ast.Constant) and str(v_.value).lower() == "close", "C12.5", "%s: `%s`" % (q.fn(fpo), dump(c_)[:60]),
+                           "Connection: close only",
+                           "do_POST sends a Connection header whose value is `%s`: BaseHTTPRequestHandler.send_header switches the connection "
+                           "to keep-alive for that value and the handler (thread / pool worker) stays with the client" % (dump(v_) if v_ is not None else None),
+                           q.loc(fpo, n_))
+
     fi = prog.func(SRV, POOLED + ".__init__")
     gi = cfg_of(fi)
     di = dominators(gi)
